@@ -287,13 +287,15 @@ def gen(rng, tier):
         for c in fft_cases(f, n, rng.choice([0, 2]), ts, offs, [l for l in lens if l >= 0], 'radix2'):
             yield c
     # two levels of roots_of_unity_recursive: 2^16
-    f = FL[4]
-    n = 1 << 16
-    v, _ = fvec(rng, f.p, n, 5)
-    for c in emit('fft', fhead(f, True), [[0, n], [], v], 'fft/radix2/toy65537/n=65536/subgroup/in_order', ts=[1, 5, 64] if not thorough else TS, nrep=1):
-        yield c
-    for c in emit('ifft', fhead(f, True), [[0, n], [f.g], v], 'ifft/radix2/toy65537/n=65536/offset_gen', ts=[3, 16] if not thorough else TS, nrep=1):
-        yield c
+    # (thorough only: the model's bit-reversal gather is quadratic, 45 s per case at this size)
+    if thorough:
+        f = FL[4]
+        n = 1 << 16
+        v, _ = fvec(rng, f.p, n, 5)
+        for c in emit('fft', fhead(f, True), [[0, n], [], v], 'fft/radix2/toy65537/n=65536/subgroup/in_order', ts=[1, 2, 5, 16, 17, 64], nrep=1):
+            yield c
+        for c in emit('ifft', fhead(f, True), [[0, n], [f.g], v], 'ifft/radix2/toy65537/n=65536/offset_gen', ts=[3, 4, 8, 31], nrep=1):
+            yield c
     # bls12_381 Fr radix-2
     f = FL[0]
     for k in ([3, 8, 9, 11] if not thorough else [3, 7, 8, 9, 10, 11, 12, 13]):
